@@ -608,6 +608,7 @@ def rule_nooffsetroute(ctx):
 
 
 RULES = [
+    ("C07.IMPULSETRAIN", 3, common.shared("c04", "rule_impulsetrain", "C07.IMPULSETRAIN")),
     ("C07.FRAMECOUNT", 4, common.shared("c05", "rule_framecount", "C07.FRAMECOUNT")),
     ("C07.CONTNORM", 2, rule_contnorm),
     ("C07.NOOFFSETROUTE", 12, rule_nooffsetroute),
